@@ -17,6 +17,9 @@ SPECIAL = [
     '---\na: 1\n',                                           # leading document marker
     'k: "quoted # not a comment"\n',
     'anchors: &x 1\nref: *x\n',
+    '/-/-/-/\n',                                              # the escape token as a scalar document
+    'a: 1\n---\n/-/-/-/\n---\nb: 2\n',
+    'body: |\n  a\n  ---\n  b\n   --- \n',                    # indented / padded terminator-like lines
 ]
 BAD = ['a: [1, 2', 'a: b: c: d', '\t- x\n\t\ty', 'key: "unterminated', '{a: 1', 'a:\n  - b\n c']
 
